@@ -10,7 +10,7 @@ CONSTANTS Kinds = {"plain"}
           CoreLen = 2
           CoreT = 1
           CoreServers = {"schemes", "ports", "dup", "absbv", "relbv", "absbvx", "relbvx", "abshx", "abspx", "psschemes", "absschv", "schvdup"}
-          Slice = 3
+          Slice = 6
           Seed = 1
           DesignAll = TRUE
 INVARIANTS DesignOK Emit
